@@ -18,6 +18,7 @@ pub struct Rec {
     pub replay: Option<String>,
     pub only: Option<String>,
     seen: u64,
+    extra: u64,
     pub executed: u64,
     pub ops: u64,
     classes: BTreeMap<String, u64>,
@@ -45,6 +46,7 @@ impl Rec {
             replay: None,
             only: None,
             seen: 0,
+            extra: 0,
             executed: 0,
             ops: 0,
             classes: BTreeMap::new(),
@@ -98,8 +100,10 @@ impl Rec {
         (idx % self.shard.1 as u64) == self.shard.0 as u64
     }
 
+    /// Points of a sub-space hanging off an owned point (e.g. the fault neighbourhood of a
+    /// transcript). They do not take part in sharding.
     pub fn count_points(&mut self, n: u64) {
-        self.seen += n;
+        self.extra += n;
         self.executed += n;
     }
 
@@ -198,6 +202,7 @@ impl Rec {
         o.push_str(&format!("\"seed\":{},", self.seed));
         o.push_str(&format!("\"shard\":[{},{}],", self.shard.0, self.shard.1));
         o.push_str(&format!("\"space\":{},", self.seen));
+        o.push_str(&format!("\"extra\":{},", self.extra));
         o.push_str(&format!("\"executed\":{},", self.executed));
         o.push_str(&format!("\"ops\":{},", self.ops));
         o.push_str(&format!("\"exhaustive\":{},", self.exhaustive));
